@@ -294,6 +294,20 @@ def run_split(c, rng, op):
                     dmax = float((Q0[pipe['name']] - Q2['NEWPIPE']).abs().max())
                     if dmax > 1e-5 + 1e-3 * qscale:
                         worst = ('flow in the new pipe vs the original pipe', 'NEWPIPE', dmax)
+                if worst is not None and pipe['minor_loss'] == 0:
+                    # a tiny tank integrated with explicit Euler steps multiplies the 1e-6 solver noise between two independently
+                    # solved models by one to two orders of magnitude per step: a difference that GROWS out of noise step by step
+                    # (first step above tolerance <= 300 x the previous step's difference) says nothing about the split
+                    import numpy as np
+                    hd = np.abs(H0.values - H2[list(H0.columns)].values).max(axis=1)
+                    over = np.where(hd > 1e-3)[0]
+                    if len(over):
+                        k_ = int(over[0])
+                        prev_ = float(hd[k_ - 1]) if k_ > 0 else 0.0
+                        if k_ > 0 and hd[k_] <= 300.0 * max(prev_, 5e-6):
+                            c.count('amplified_noise_cases')
+                            c.inconclusive('amplified_solver_noise')
+                            return
                 if worst is not None:
                     kind = 'split_changes_hydraulics'
                     if pipe['minor_loss'] > 0:
@@ -371,7 +385,7 @@ def run_skel(c, rng):
             return
         if isinstance(e, KeyError):
             # skeletonize starts with a single-period simulation; if that cannot be solved there is nothing to judge
-            chk = copy.deepcopy(wn)
+            chk = gnet.build(spec)         # a fresh model: with return_copy=False the failed attempt has already run on wn itself
             chk.options.time.duration = 0
             trc = simobs.run_wntr(chk, deep=False) if not use_epanet else simobs.run_epanet(chk)
             if not simobs.converged(trc) or 0 not in list(trc.results.node['head'].index):
